@@ -73,9 +73,15 @@ func (v *VM) Run() (err error) {
 	v.framesIndex = 1
 	v.ip = -1
 	v.allocs = v.maxAllocs + 1
+	if verifOn && verifRunStart != nil {
+		verifRunStart(v)
+	}
 
 	v.run()
 	atomic.StoreInt64(&v.aborting, 0)
+	if verifOn && verifRunEnd != nil {
+		verifRunEnd(v)
+	}
 	err = v.err
 	if err != nil {
 		filePos := v.fileSet.Position(
@@ -97,6 +103,9 @@ func (v *VM) Run() (err error) {
 func (v *VM) run() {
 	for atomic.LoadInt64(&v.aborting) == 0 {
 		v.ip++
+		if verifOn && verifStep != nil {
+			verifStep(v)
+		}
 
 		switch v.curInsts[v.ip] {
 		case parser.OpConstant:
